@@ -518,6 +518,83 @@ def check_part(ctx, n, label, unm_choices=(0, 0, 0.2)):
                    {"kind": "nest", "case": c, "repr": repr(c)}, no_input=True, kind="correspondence")
 
 
+# ----------------------------------------------------------------------------- never-compared snapshots vs Model/Undecided.v
+def gen_never(rng, unm_choices=(0, 0.2, 0.3)):
+    c = gen_case(rng, unm_choices)
+    c["flags"] = tuple(f for f in ("create", "fix", "trim", "update") if rng.random() < 0.6)
+    c["never"] = True
+    return c
+
+
+def program_never(c):
+    us, seen = [], set()
+    for i, v in unms(c["tree"]):
+        if i not in seen:
+            seen.add(i)
+            us.append((i, v))
+    vs = "".join(f"V{i} = {v}\n" for i, v in us)
+    return header(c["style"]) + vs + f"\n\ndef test_a():\n    s = snapshot({render_tree(c['tree'])})\n"
+
+
+def run_never(c):
+    src = program_never(c)
+    r = driver.run_inproc({"test_a.py": src}, c["flags"], block_black=True)
+    out = {"session_exc": r["session_exc"], "source": src, "after": r["files"]["test_a.py"].decode(), "tests": [(t[1], t[2][:200]) for t in r["tests"]]}
+    try:
+        tree, arg = snapshot_arg(out["after"])
+        seg = ast.get_source_segment(out["after"], arg)
+        out["arg"] = seg
+        out["observed"] = read_back(seg)
+        ns = {}
+        exec(compile(ast.Module(body=[n for n in tree.body if not isinstance(n, ast.FunctionDef)], type_ignores=[]), "<m>", "exec"), ns)
+        ns["Is"] = lambda x: x
+        got, old = eval(seg, ns), eval(render_tree(c["tree"]), ns)
+        out["eq_old"] = bool(got == old) and same_types(got, old)
+    except Exception as e:  # noqa
+        out["error"] = f"{type(e).__name__}: {e}"
+    return out
+
+
+def oracle_never(c, o):
+    """C05 / C10 / C04 on a snapshot that is never compared, without the model"""
+    if any(t[1] != "ok" for t in o["tests"]):
+        return f"the test raised: {o['tests']}"
+    if not o["eq_old"]:
+        return "the value of a never-compared snapshot changed"
+    if "update" not in c["flags"] and o["after"] != o["source"]:
+        return f"the file was changed although update is not approved (flags {c['flags']})"
+    want, got = [i for i, _ in unms(c["tree"])], obs_unms(o["observed"])
+    if want != got:
+        return f"user-controlled parts {want} became {got}"
+    return None
+
+
+def check_never(ctx, n, label):
+    from .core import coq_eval_shards, pmap
+    cases = [gen_never(ctx.rng) for _ in range(n)]
+    outs = pmap(run_never, cases, chunksize=8)
+    terms, idx = [], []
+    for i, (c, o) in enumerate(zip(cases, outs)):
+        text = render_tree(c["tree"])
+        ctx.count(("never", text, c["flags"]), "update" in c["flags"])
+        if o["session_exc"] or "error" in o:
+            ctx.report(f"{label} (never-compared nested value): run failed: {o['session_exc'] or o.get('error')}: {text} flags {c['flags']}", {"kind": "never", "case": c, "repr": repr(c)})
+            continue
+        why = oracle_never(c, o)
+        if why:
+            ctx.report(f"{label} oracle (never-compared nested value): {why}: {text} flags {c['flags']} -> {o.get('arg')}", {"kind": "never", "case": c, "repr": repr(c)})
+            continue
+        terms.append(f"({g_bool('update' in c['flags'])}, {g_tree(c['tree'])}, {g_oshape(o['observed'])})")
+        idx.append(i)
+    bad = coq_eval_shards(ctx, "undecided", REQ, "ucase", terms, "mismatchesU ct", preamble=g_ct())
+    ctx.coverage["traces_validated_against_impl"] += len(terms)
+    ctx.coverage["correspondence"]["never_compared"] = {"cases": len(terms), "mismatches": len(bad), "with_update": sum("update" in c["flags"] for c in cases)}
+    for j in bad[:10]:
+        c, o = cases[idx[j]], outs[idx[j]]
+        ctx.report(f"Model/Undecided.v and implementation differ (oracle silent): {render_tree(c['tree'])} flags {c['flags']} -> {o['arg']}", {"kind": "never", "case": c, "repr": repr(c)},
+                   no_input=True, kind="correspondence")
+
+
 # ----------------------------------------------------------------------------- C08: a second run is a no-op (oracle on the real code)
 def run_twice(c):
     src = program(c)
@@ -564,6 +641,43 @@ def check_second_run(ctx, n, label):
             ctx.report(f"{label} oracle (nested value, second run): {why}: {render_tree(c['tree'])} observed {render_val(c['new'])} first run {c['flags1']}",
                        {"kind": "nest-twice", "case": c, "repr": repr(c)})
     ctx.coverage["oracle"]["nested_second_runs"] = n
+
+
+def run_never_twice(c):
+    src = program_never(c)
+    r1 = driver.run_inproc({"test_a.py": src}, ("update",), block_black=True)
+    out = {"session_exc": r1["session_exc"], "source": src}
+    if r1["session_exc"]:
+        return out
+    mid = r1["files"]["test_a.py"].decode()
+    r2 = driver.run_inproc({"test_a.py": mid}, c["flags"], block_black=True)
+    out.update({"session_exc2": r2["session_exc"], "mid": mid, "after": r2["files"]["test_a.py"].decode(), "reported2": sorted(r2["reported"]),
+                "tests2": [t[2][:200] for t in r2["tests"] if t[2] != "ok"]})
+    return out
+
+
+def check_never_twice(ctx, n, label):
+    """C08 on never-compared snapshots: after a run with update a second run (any approved set) changes and reports nothing"""
+    from .core import pmap
+    cases = [gen_never(ctx.rng) for _ in range(n)]
+    for c, o in zip(cases, pmap(run_never_twice, cases, chunksize=8)):
+        ctx.count(("never-twice", render_tree(c["tree"]), c["flags"]), True)
+        why = second_run_oracle({"flags2": c["flags"]}, o)
+        if why:
+            ctx.report(f"{label} oracle (never-compared nested value, run twice): {why}", {"kind": "never-twice", "case": c, "repr": repr(c)})
+    ctx.coverage["oracle"]["never_compared_run_twice"] = n
+
+
+def replay_never(case):
+    if case.get("kind") == "never-twice":
+        c = eval(case["repr"])
+        o = run_never_twice(c)
+        print(o.get("mid"), o.get("after"), o.get("reported2"))
+        return second_run_oracle({"flags2": c["flags"]}, o) is None
+    c = eval(case["repr"])
+    o = run_never(c)
+    print(o.get("source"), o.get("arg"), o.get("session_exc"), o.get("error"))
+    return not (o["session_exc"] or "error" in o) and oracle_never(c, o) is None
 
 
 def replay_case(case):
